@@ -3,6 +3,7 @@ package rt
 import (
 	"context"
 	"fmt"
+	"go.uber.org/cff"
 	"runtime"
 	"strconv"
 	"strings"
@@ -29,7 +30,7 @@ const (
 // Outcome is what one invocation of a unit does.
 type Outcome struct {
 	K  int `json:"k,omitempty"`  // OOk | OErr | OPanic
-	PV int `json:"pv,omitempty"` // panic value kind: 0 string, 1 error, 2 runtime error, 3 struct, 4 pointer, 5 uncomparable struct, 6 slice
+	PV int `json:"pv,omitempty"` // panic value kind: 0 string, 1 error, 2 runtime error, 3 struct, 4 pointer, 5 uncomparable struct, 6 slice, 7 error wrapping an older *cff.PanicError, 8 an older *cff.PanicError itself
 	EV int `json:"ev,omitempty"` // error value kind: 0 unique value, 1 wraps context.DeadlineExceeded, 2 wraps context.Canceled, 3 the execution's shared instance
 	T  int `json:"t,omitempty"`  // timing: 0 instant, 1 yield, 2 sleep D microseconds
 	D  int `json:"d,omitempty"`
@@ -455,6 +456,14 @@ func (e *Env) finish(pos int, unit, elem int, o Outcome, canErr bool, outs []uin
 			inj.PV = PanicSlice{[]int{e.ID, unit, elem}}
 		case 6:
 			inj.PV = []int{e.ID, unit, elem}
+		case 7:
+			// an error that wraps the PanicError of some earlier, unrelated panic
+			// (what a task gets when it re-panics with the error of a nested directive)
+			inj.PV = &WrapErr{TaskErr{e.ID, unit, elem}, &cff.PanicError{Value: "an older panic"}}
+		case 8:
+			// the PanicError of an older panic itself (a task that re-panics with
+			// the error a nested directive returned)
+			inj.PV = &cff.PanicError{Value: PanicStruct{e.ID, unit, elem}}
 		default:
 			inj.PV = &PanicStruct{e.ID, unit, elem}
 		}
